@@ -25,6 +25,8 @@ QStep(st, e, t) ==
       [] e.e = "sync_stop" -> Fin(st, e, SyncStop(st))
       [] e.e = "pdo_start" -> StartLike(st, e, PdoStart(st, e.period_us))
       [] e.e = "pdo_stop" -> Fin(st, e, PdoStop(st))
+      [] e.e = "sync_cob" -> Fin(st, e, SyncSetCob(st, e.id))
+      [] e.e = "pdo_echo" -> Fin(st, e, IF e.skipped THEN st ELSE PdoEcho(st, e.d, e.ts))
       [] e.e = "pdo_cob" -> Fin(st, e, PdoSetCob(st, e.id))
       [] e.e = "pdo_set" -> Fin(st, e, PdoSetData(st, e.d))
       [] e.e = "hb_start" -> Fin(st, e, HbStart(st, e.ms))
